@@ -50,10 +50,13 @@ def confirm(d):
     os.makedirs(os.path.join(wt, 'tests'), exist_ok=True)
     # clean tree: demo passes
     subprocess.run(['cp', demo, os.path.join(wt, 'tests', 'demo.rs')], check=True)
-    rc, out = sh(['cargo', 'test', '--offline', '--test', 'demo'], cwd=wt, env=env)
-    c['demo_passes_clean'] = rc == 0
+    feats = sorted(set(re.findall(r'feature\s*=\s*"([a-z0-9_]+)"', open(demo).read())))
+    fargs = (['--features', ' '.join(feats)] if feats else [])
+    c['demo_features'] = feats
+    rc, out = sh(['cargo', 'test', '--offline'] + fargs + ['--test', 'demo'], cwd=wt, env=env)
+    c['demo_passes_clean'] = rc == 0 and 'test result: ok' in out
     sh(['git', 'apply', patch], cwd=wt)
-    rc, out = sh(['cargo', 'test', '--offline', '--test', 'demo'], cwd=wt, env=env)
+    rc, out = sh(['cargo', 'test', '--offline'] + fargs + ['--test', 'demo'], cwd=wt, env=env)
     c['demo_fails_mutant'] = rc != 0 and ('test result: FAILED' in out or 'panicked' in out)
     c['demo_fail_excerpt'] = '\n'.join(l for l in out.splitlines() if 'panicked' in l or 'assertion' in l or 'left:' in l or 'right:' in l)[:600]
     os.remove(os.path.join(wt, 'tests', 'demo.rs'))
